@@ -87,3 +87,13 @@ func c02UploadStream(name, data []byte) []byte {
 	s = append(s, data...)
 	return s
 }
+
+// Upload with a resource fork (fork count 3): data fork, then a 16-byte MACR header and the resource bytes.
+func c02UploadStream3(name, data, rsrc []byte) []byte {
+	s := c02UploadStream(name, data)
+	s[23] = 3 // fork count
+	s = append(s, 'M', 'A', 'C', 'R', 0, 0, 0, 0, 0, 0, 0, 0)
+	s = append(s, refU32(len(rsrc))...)
+	s = append(s, rsrc...)
+	return s
+}
